@@ -191,6 +191,33 @@ func genC08(tier string, r *Rng, emit func(Case)) {
 	}
 }
 
+// genC08Huge: exponents beyond a million, in the forms whose text stays short (Exact / String / %g / %e print
+// 0.ddde+XXXXXXX there; %f is left out: its text would have a million digits).
+func genC08Huge(r *Rng, emit func(Case)) {
+	for _, exp := range []int{999999, 1000000, 1000001, 2000000, -1000001, 1 << 31} {
+		for _, ver := range allVers {
+			raw := randDigits(r, r.Pick([]int{1, 3, 17, 20}))
+			var t toks
+			t.s("T")
+			t.ints(raw)
+			t.ints(nil)
+			t.i(exp)
+			t.i(-1)
+			emit(Case{Ver: ver, Op: "Str", Args: t})
+			if ver == "v3" {
+				emit(Case{Ver: ver, Op: "Exact", Args: t})
+			}
+			for _, verb := range []int{'g', 'e', 'v', 'G'} {
+				args := append(append(toks{}, t...), "0", "-1", itoa(r.Pick([]int{-1, 3, 20})), itoa(verb))
+				emit(Case{Ver: ver, Op: "Fmt", Args: args})
+			}
+		}
+	}
+}
+
 func init() {
-	register("C08", genC08, map[string]runner{"Fmt": runFmt, "Str": runStr, "Exact": runExact})
+	register("C08", func(tier string, r *Rng, emit func(Case)) {
+		genC08Huge(r, emit)
+		genC08(tier, r, emit)
+	}, map[string]runner{"Fmt": runFmt, "Str": runStr, "Exact": runExact})
 }
